@@ -3,7 +3,10 @@
 // Harness c04w: C04 at system level - the real consensus component (wire encoding, transport,
 // instance handling, round timers) of every node of a simulated cluster under crash faults with
 // timely delivery: every running node's instance must decide within one leader rotation after the
-// last fault.
+// last fault. The duty type (attester through the scheduler stub; proposer, aggregator, sync
+// contribution by calling Participate/Propose directly) and the timer configuration (process-global
+// feature set: default, eager_double_linear off, linear on, consensus_participate off) are seeded
+// per run; the round timing the oracle uses is re-stated in timers_test.go.
 package c04w
 
 import (
@@ -54,6 +57,7 @@ var (
 	sink     logSink
 	ansiRe   = regexp.MustCompile("\x1b\\[[0-9;]*m")
 	digitsRe = regexp.MustCompile("[0-9]+")
+	timerRe  = regexp.MustCompile(`"?timer"?[=:]\s*"?([a-z_]+)`)
 )
 
 func TestSim(t *testing.T) {
@@ -70,14 +74,56 @@ func body(c *kernel.Ctx) {
 
 	n := []int{4, 7, 5, 4, 7, 6}[verifrt.Intn("cfg", 6)]
 	f := (n - 1) / 3
-	cfg := cluster.Config{N: n, Validators: 1, SlotsPerEpoch: 16, SlotDuration: 12 * time.Second, StartSlot: 64 + uint64(verifrt.Intn("cfg", 16))}
+	startSlot := 64 + uint64(verifrt.Intn("cfg", 16))
+	latDraw := verifrt.Intn("cfg", 150)
+	dup := verifrt.Intn("cfg", 3) == 2
+
+	// ---- duty type and timer configuration (0 = attester duty through the scheduler stub, default feature set)
+	dutyType := []core.DutyType{core.DutyAttester, core.DutyProposer, core.DutyAggregator, core.DutySyncContribution}[verifrt.Intn("cfg", 4)]
+	feat := defaultFeatures
+	switch verifrt.Intn("cfg", 4) {
+	case 1: // increasing timer for every duty
+		feat.eager = false
+	case 2: // linear timer for proposer duties, the others as by default
+		feat.linear = true
+	case 3: // linear timer for proposer duties, increasing timer for the others
+		feat.linear, feat.eager = true, false
+	}
+	if verifrt.Intn("cfg", 4) == 3 {
+		feat.participate = false // Participate is a no-op: every instance is started by Propose
+	}
+	slotMult := 1 + verifrt.Intn("cfg", 3)
+	// the feature set is process-global: set before the components are built (the consensus component
+	// picks its timer function when constructed and asks the feature set again per instance and per
+	// round), restored when the run ends (runs are sequential in a worker process)
+	feat.apply()
+	defer defaultFeatures.apply()
+	tm := modelFor(dutyType, feat)
+	// latency well within a third of the configuration's shortest round: 1..150 ms of 1 s rounds, 1..130 ms
+	// of the linear timer's 400 ms
+	latCap := 150
+	if tm.shortest()/3 < 150*time.Millisecond {
+		latCap = int(tm.shortest()/3/time.Millisecond) - 3
+	}
+	maxLat := 1 + latDraw*latCap/150
+	// slot duration: 12 s, or a multiple. A proposer or sync contribution duty expires 5/12 of a slot after
+	// its start; the slot is made long enough for the end of a leader rotation after a fault in the first
+	// four seconds (increasing timer, n = 7: about a minute) to lie within the duty's lifetime.
+	{
+		need := tm.roundEnd(tm.faultRound(4*time.Second)+n, time.Second) + 3*time.Second
+		for dutyWindow(dutyType, time.Duration(slotMult)*12*time.Second, 16) < need {
+			slotMult++
+		}
+	}
+	cfg := cluster.Config{N: n, Validators: 1, SlotsPerEpoch: 16, SlotDuration: time.Duration(slotMult) * 12 * time.Second, StartSlot: startSlot}
 	cl := cluster.New(ctx, c.T, cfg)
 	slot := cfg.StartSlot
-	duty := core.NewAttesterDuty(slot)
-	dutyStart := cl.SlotStart(slot).Add(cfg.SlotDuration / 3)
-	maxLat := 1 + verifrt.Intn("cfg", 150) // well within a third of the 1 s rounds
-	dup := verifrt.Intn("cfg", 3) == 2
+	duty := core.Duty{Slot: slot, Type: dutyType}
+	dutyStart := cl.SlotStart(slot).Add(dutyOffset(dutyType, cfg.SlotDuration))
+	window := dutyWindow(dutyType, cfg.SlotDuration, cfg.SlotsPerEpoch)
 	cl.View = func(node int, _ uint64) int { return node % 2 }
+	verifrt.Probe("duty:" + dutyType.String())
+	verifrt.Note("duty %v, timer %v (eager=%v linear=%v participate=%v), slot duration %v, max latency %dms", duty, tm.kind, feat.eager, feat.linear, feat.participate, cfg.SlotDuration, maxLat)
 
 	// ---- fault plan: <= f nodes silent, crashed at a time, or crashed after their k-th consensus send
 	type plan struct {
@@ -96,14 +142,15 @@ func body(c *kernel.Ctx) {
 		case 3:
 			// the leader of round 1 starts late, so late that its proposal arrives towards the end of the
 			// round: some members prepare but cannot decide before their round timer fires, and the next
-			// leaders must re-propose the prepared value with its certificate
+			// leaders must re-propose the prepared value with its certificate. (Relative timers: the
+			// late member's own rounds begin with its start, which the bound accounts for as start skew.)
 			lp := int((int64(duty.Slot) + int64(duty.Type) + 1) % int64(n))
 			if plans[lp].kind != 0 {
 				plans[p] = plan{kind: 1}
 				break
 			}
 			back := time.Duration(100+verifrt.Intn("f", 250)) * time.Duration(maxLat) * time.Millisecond / 100
-			at := time.Second - back
+			at := tm.timeout(1) - back
 			if at < time.Millisecond || verifrt.Intn("f", 4) == 0 {
 				at = time.Duration(300+verifrt.Intn("f", 650)) * time.Millisecond
 			}
@@ -120,6 +167,7 @@ func body(c *kernel.Ctx) {
 	sent := map[int]int{}
 	crashed := map[int]bool{}
 	lastFault := time.Duration(0) // relative to dutyStart
+	maxStart := time.Duration(0)  // latest start of a running member's instance, relative to dutyStart
 	crash := func(i int, why string) {
 		mu.Lock()
 		if crashed[i] || cl.Nodes[i] == nil {
@@ -200,10 +248,49 @@ func body(c *kernel.Ctx) {
 			}
 			mu.Unlock()
 		}
-		verifrt.GoNode(nd.Tag, func() {
-			verifrt.Sleep(time.Until(dutyStart) + startDelay)
-			nd.Sched.Trigger(nd.Ctx, duty, cl.DefSet(slot))
-		})
+		mu.Lock()
+		if startDelay > maxStart {
+			maxStart = startDelay
+		}
+		mu.Unlock()
+		if dutyType == core.DutyAttester {
+			// through the scheduler stub: core.Wire makes the fetcher fetch and propose, and the consensus
+			// component participate
+			verifrt.GoNode(nd.Tag, func() {
+				verifrt.Sleep(time.Until(dutyStart) + startDelay)
+				nd.Sched.Trigger(nd.Ctx, duty, cl.DefSet(slot))
+			})
+		} else {
+			// the consensus component directly. Production (core.Wire) subscribes both the fetcher, which
+			// ends in Propose, and Participate to the scheduler's duties: a member calls Participate first
+			// (a no-op for aggregator and sync contribution duties, or when consensus_participate is off)
+			// and Propose when it has its data, or Propose alone. Propose comes at the member's start time.
+			set := unsignedSet(cl, duty, i%2)
+			gap := time.Duration(-1)
+			if verifrt.Intn("w", 3) != 0 {
+				gap = time.Duration(verifrt.Intn("w", 120)) * time.Millisecond
+				if gap > startDelay {
+					gap = startDelay
+				}
+			}
+			if gap < 0 || !feat.participate || dutyType == core.DutyAggregator || dutyType == core.DutySyncContribution {
+				verifrt.Probe("non-eager-start") // the instance is started by Propose
+			}
+			verifrt.GoNode(nd.Tag, func() {
+				if gap >= 0 {
+					verifrt.Sleep(time.Until(dutyStart) + startDelay - gap)
+					verifrt.Go(func() {
+						if err := nd.Cons.Participate(nd.Ctx, duty); err != nil && nd.Ctx.Err() == nil {
+							verifrt.Note("n%d participate: %v", me, err)
+						}
+					})
+				}
+				verifrt.Sleep(time.Until(dutyStart) + startDelay)
+				if err := nd.Cons.Propose(nd.Ctx, duty, set); err != nil && nd.Ctx.Err() == nil {
+					verifrt.Note("n%d propose: %v", me, err)
+				}
+			})
+		}
 		if pl := plans[i]; pl.kind == 2 {
 			verifrt.Go(func() {
 				verifrt.Sleep(time.Until(dutyStart) - 200*time.Millisecond + pl.at)
@@ -214,22 +301,57 @@ func body(c *kernel.Ctx) {
 	}
 	c.Set("n", n)
 	c.Set("faulty", nf)
+	c.Set("duty", dutyType.String())
+	c.Set("timer", tm.kind.String())
 
-	// rounds are absolute one-second windows after the duty's start (eager double-linear timer):
-	// round k ends at dutyStart + k s. One full leader rotation after the round of the last fault.
-	verifrt.Sleep(time.Until(dutyStart) + time.Duration(n+6)*time.Second)
-	mu.Lock()
-	rf := 1 + int(lastFault/time.Second)
-	if lastFault <= 0 {
-		rf = 1
-	}
-	bound := time.Duration(rf+n)*time.Second + 500*time.Millisecond
-	mu.Unlock()
-	if wait := time.Until(dutyStart.Add(bound + time.Second)); wait > 0 {
-		verifrt.Sleep(wait)
+	// One full leader rotation after the round of the last fault: the last fault falls into round rf (at
+	// most; see timerModel.faultRound), so every running member must have decided when round rf+n is
+	// over at every member (timerModel.roundEnd: absolute for the eager timer - round k ends at
+	// dutyStart + k s (+ 500 ms for a proposer duty) - and for the relative timers counted from the latest
+	// start of a member, every round taken at twice its timeout), plus 500 ms for the decision to
+	// spread. The wait ends early when every running member has decided and two more seconds passed.
+	var (
+		rf      int
+		bound   time.Duration
+		settled time.Duration = -1
+	)
+	verifrt.Sleep(time.Until(dutyStart))
+	for {
+		mu.Lock()
+		rf = tm.faultRound(lastFault)
+		bound = tm.roundEnd(rf+n, maxStart) + 500*time.Millisecond
+		all := true
+		for i := 0; i < n; i++ {
+			if _, ok := decidedAt[i]; !ok && !crashed[i] {
+				all = false
+			}
+		}
+		mu.Unlock()
+		now := time.Since(dutyStart)
+		if all && settled < 0 {
+			settled = now
+		}
+		until := bound + time.Second
+		if until > window+time.Second {
+			until = window + time.Second // the duty has expired by then: nothing more can happen
+		}
+		if now >= until || (all && now >= settled+2*time.Second && now >= maxStart+time.Second) {
+			break
+		}
+		step := time.Second
+		if until-now < step {
+			step = until - now
+		}
+		verifrt.Sleep(step)
 	}
 	mu.Lock()
 	defer mu.Unlock()
+	// the members drop an expired duty; a bound that ends later than that cannot be demanded (the slot
+	// duration is chosen so that this only happens after very late faults)
+	demandable := bound+time.Second <= window
+	if !demandable {
+		verifrt.Probe("bound-beyond-duty-deadline")
+	}
 	for i := 0; i < n; i++ {
 		if crashed[i] {
 			continue
@@ -243,20 +365,33 @@ func body(c *kernel.Ctx) {
 			// and a member that decided on the others' COMMITs never sent its own) finds nobody to
 			// answer its ROUND-CHANGEs. Outside the premise: recorded, not reported (DESIGN.md 11.3).
 			verifrt.Probe("straggler-after-peers-stopped-on-decide")
+		case !ok && !demandable:
 		case !ok:
-			c.Violate("C04", "termination", "running-node-never-decided", "node %d of %d had not decided at +%v although at most f=%d nodes were faulty (last fault at +%v, round %d) and delivery was timely (max latency %dms)", i, n, time.Since(dutyStart), f, lastFault, rf, maxLat)
+			c.Violate("C04", "termination", "running-node-never-decided", "node %d of %d had not decided at +%v (%v duty, %v timer) although at most f=%d nodes were faulty (last fault at +%v, round %d; round %d+%d ends by +%v) and delivery was timely (max latency %dms)", i, n, time.Since(dutyStart), dutyType, tm.kind, f, lastFault, rf, rf, n, bound, maxLat)
 		case at > bound:
-			c.Violate("C04", "termination", "decided-later-than-one-leader-rotation", "node %d decided at +%v, later than the end of round %d+%d (last fault at +%v)", i, at, rf, n, lastFault)
+			c.Violate("C04", "termination", "decided-later-than-one-leader-rotation", "node %d decided at +%v (%v duty, %v timer), later than the end of round %d+%d at +%v (last fault at +%v)", i, at, dutyType, tm.kind, rf, n, bound, lastFault)
 		}
-		if ok && at > time.Second {
+		if ok && at > tm.timeout(1) {
 			verifrt.Probe("decided-after-round-1")
+		}
+	}
+	// which timers the instances really ran with (the component logs it when an instance starts)
+	logged := sink.take()
+	seenTimer := map[string]bool{}
+	for _, raw := range logged {
+		if !strings.Contains(raw, "QBFT consensus instance starting") {
+			continue
+		}
+		if m := timerRe.FindStringSubmatch(ansiRe.ReplaceAllString(raw, "")); m != nil && !seenTimer[m[1]] {
+			seenTimer[m[1]] = true
+			verifrt.Probe("timer:" + m[1])
 		}
 	}
 	// "No message sent by an honest member is ever rejected ... by another honest member": every member
 	// here is honest (crash faults only), so no consensus message may be refused by a receiving
 	// component for its content. Refusals for expiry or a cancelled receive are not about content.
 	reported := map[string]bool{}
-	for _, raw := range sink.take() {
+	for _, raw := range logged {
 		line := ansiRe.ReplaceAllString(raw, "")
 		const marker = "The request could not be processed: "
 		i := strings.Index(line, marker)
